@@ -200,7 +200,9 @@ def reassembly(repo: Repo, chk: Check, f: Func, helpers: t.Dict[str, str]) -> No
                    "reply = header copy [0:16] + complete body read [16:frag_len]" if okc else f"reply buffer [0:{resp.size!r}] is not covered exactly by header copy + complete body read: {[(repr(a), repr(b), w) for a, b, w in cov]}")
         # ---- O2 arguments handed on
         a1, a2, a3 = pcall.arg(1), pcall.arg(2), pcall.arg(3)
-        ok2 = a1 is hcall.result and isinstance(a2, TRef) and a2.path == "resp_type" and isinstance(a3, TRef) and a3.path == "encrypt_offsets"
+        rt_name = f.params[2] if len(f.params) > 2 else "resp_type"
+        eo_name = f.params[3] if len(f.params) > 3 else "encrypt_offsets"
+        ok2 = a1 is hcall.result and isinstance(a2, TRef) and a2.path == rt_name and isinstance(a3, TRef) and a3.path == eo_name
         chk.ob("O2", Site.of(f, pcall.node), ok2, "(reply, decoded header, resp_type, encrypt_offsets) handed to _process_response" if ok2 else f"_process_response receives ({a1!r}, {a2!r}, {a3!r})")
     if n == 0:
         raise AnalysisError(f"{f.qual}: no returning path")
